@@ -133,21 +133,23 @@ class RegexVM:
         return None
 
     def _execute(
-        self, string: str, start_pos: int, anchored: bool
-    ) -> Optional[MatchResult]:
+        self, string: str, start_pos: int, anchored: bool, pc: int = 0, captures=None
+    ):
         """
         Execute bytecode against string.
 
-        This is the main execution loop.
+        This is the main execution loop.  Lookaround bodies re-enter it with
+        the pc of the body and a copy of the captures; such a nested run ends
+        at LOOKAHEAD_END / LOOKBEHIND_END and returns the captures.
         """
         # Execution state
-        pc = 0  # Program counter
         sp = start_pos  # String position
-        step_count = 0
-
-        # Capture positions: list of (start, end) for each group
-        # -1 means unset
-        captures = [[-1, -1] for _ in range(self.capture_count)]
+        if captures is None:
+            # Top-level attempt: one step budget, shared with nested runs
+            self._steps = 0
+            # Capture positions: list of (start, end) for each group
+            # -1 means unset
+            captures = [[-1, -1] for _ in range(self.capture_count)]
 
         # Registers for position tracking (ReDoS protection)
         registers: List[int] = []
@@ -157,14 +159,15 @@ class RegexVM:
 
         while True:
             # Check limits periodically
-            step_count += 1
+            self._steps += 1
             self._poll_steps += 1
             if self._poll_steps % self.poll_interval == 0:
                 if self.poll_callback and self.poll_callback():
                     raise RegexTimeoutError("Regex execution timed out")
 
-            # Hard step limit for ReDoS protection
-            if step_count > self.step_limit:
+            # Hard step limit for ReDoS protection (the counter is shared, so
+            # a nested run that exhausts it ends every enclosing run as well)
+            if self._steps > self.step_limit:
                 return None  # Fail gracefully on ReDoS
 
             # Stack overflow protection
@@ -485,91 +488,34 @@ class RegexVM:
                         return None
                     pc, sp, captures, registers = self._backtrack(stack)
 
-            elif opcode == Op.LOOKAHEAD:
+            elif opcode in (
+                Op.LOOKAHEAD,
+                Op.LOOKAHEAD_NEG,
+                Op.LOOKBEHIND,
+                Op.LOOKBEHIND_NEG,
+            ):
                 end_offset = instr[1]
-                # Save current state and try to match lookahead
-                saved_sp = sp
-                saved_captures = [c.copy() for c in captures]
-
-                # Create sub-execution for lookahead, passing current captures
-                la_captures = self._execute_lookahead(
-                    string, sp, pc + 1, end_offset, captures
-                )
-
-                if la_captures is not None:
-                    # Lookahead succeeded - restore position but keep captures from lookahead
-                    sp = saved_sp
-                    captures = la_captures  # Use captures from lookahead
-                    pc = end_offset
-                else:
-                    # Lookahead failed
+                # Run the body in this same loop (mirrored when its direction
+                # differs from the current one); the position is not consumed
+                sub = self._run_lookaround(string, sp, pc + 1, captures, instr[2])
+                if opcode in (Op.LOOKAHEAD, Op.LOOKBEHIND):
+                    if sub is None:
+                        if not stack:
+                            return None
+                        pc, sp, captures, registers = self._backtrack(stack)
+                        continue
+                    captures = sub  # Keep captures made inside the assertion
+                elif sub is not None:
+                    # Negative assertion failed (inner matched)
                     if not stack:
                         return None
                     pc, sp, captures, registers = self._backtrack(stack)
+                    continue
+                pc = end_offset
 
-            elif opcode == Op.LOOKAHEAD_NEG:
-                end_offset = instr[1]
-                saved_sp = sp
-                saved_captures = [c.copy() for c in captures]
-
-                la_captures = self._execute_lookahead(
-                    string, sp, pc + 1, end_offset, captures
-                )
-
-                if la_captures is None:
-                    # Negative lookahead succeeded (inner didn't match)
-                    sp = saved_sp
-                    captures = saved_captures  # Keep original captures
-                    pc = end_offset
-                else:
-                    # Negative lookahead failed (inner matched)
-                    if not stack:
-                        return None
-                    pc, sp, captures, registers = self._backtrack(stack)
-
-            elif opcode == Op.LOOKAHEAD_END:
-                # Successfully matched lookahead content
-                return MatchResult([], 0, "")  # Special marker
-
-            elif opcode == Op.LOOKBEHIND:
-                end_offset = instr[1]
-                saved_sp = sp
-                saved_captures = [c.copy() for c in captures]
-
-                # Try lookbehind - match pattern ending at current position
-                lb_result = self._execute_lookbehind(string, sp, pc + 1, end_offset)
-
-                if lb_result:
-                    # Lookbehind succeeded - restore position and continue after
-                    sp = saved_sp
-                    captures = saved_captures
-                    pc = end_offset
-                else:
-                    # Lookbehind failed
-                    if not stack:
-                        return None
-                    pc, sp, captures, registers = self._backtrack(stack)
-
-            elif opcode == Op.LOOKBEHIND_NEG:
-                end_offset = instr[1]
-                saved_sp = sp
-                saved_captures = [c.copy() for c in captures]
-
-                lb_result = self._execute_lookbehind(string, sp, pc + 1, end_offset)
-
-                if not lb_result:
-                    # Negative lookbehind succeeded (inner didn't match)
-                    sp = saved_sp
-                    captures = saved_captures
-                    pc = end_offset
-                else:
-                    # Negative lookbehind failed (inner matched)
-                    if not stack:
-                        return None
-                    pc, sp, captures, registers = self._backtrack(stack)
-
-            elif opcode == Op.LOOKBEHIND_END:
-                return MatchResult([], 0, "")  # Special marker
+            elif opcode in (Op.LOOKAHEAD_END, Op.LOOKBEHIND_END):
+                # End of a nested run: the assertion body matched
+                return captures
 
             elif opcode == Op.SET_POS:
                 reg_idx = instr[1]
@@ -628,235 +574,34 @@ class RegexVM:
         after = pos < len(string) and is_word_char(string[pos])
         return before != after
 
-    def _execute_lookahead(
+    def _run_lookaround(
         self,
         string: str,
-        start_pos: int,
-        start_pc: int,
-        end_pc: int,
-        input_captures: List[List[int]],
+        pos: int,
+        body_pc: int,
+        captures: List[List[int]],
+        mirror: bool,
     ) -> Optional[List[List[int]]]:
-        """Execute bytecode for lookahead assertion.
+        """Match a lookaround body at pos with the main loop.
 
-        Returns the captures list if lookahead succeeds, None if it fails.
-        This preserves captures made inside the lookahead.
+        Returns the captures if the body matches, None otherwise.  A body whose
+        direction differs from the current one (a lookbehind in forward
+        context, a lookahead inside a lookbehind) is compiled with its terms
+        in reverse order and runs on the mirrored string, which is how
+        ECMAScript defines lookbehind: right to left from the current position.
         """
-        # Start with a copy of input captures to preserve outer captures
-        pc = start_pc
-        sp = start_pos
-        captures = [c.copy() for c in input_captures]
-        registers: List[int] = []
-        stack: List[Tuple] = []
-        step_count = 0
+        n = len(string)
 
-        while True:
-            step_count += 1
-            self._poll_steps += 1
-            if self._poll_steps % self.poll_interval == 0:
-                if self.poll_callback and self.poll_callback():
-                    raise RegexTimeoutError("Regex execution timed out")
+        def mirrored(caps):
+            return [[-1 if e < 0 else n - e, -1 if s < 0 else n - s] for s, e in caps]
 
-            if len(stack) > self.stack_limit:
-                raise RegexStackOverflow("Regex stack overflow")
-
-            if pc >= end_pc:
-                return None
-
-            instr = self.bytecode[pc]
-            opcode = instr[0]
-
-            if opcode == Op.LOOKAHEAD_END:
-                return captures  # Return captures made inside lookahead
-
-            # Handle SAVE_START/SAVE_END to capture groups inside lookahead
-            if opcode == Op.SAVE_START:
-                group_idx = instr[1]
-                if group_idx < len(captures):
-                    captures[group_idx][0] = sp
-                pc += 1
-
-            elif opcode == Op.SAVE_END:
-                group_idx = instr[1]
-                if group_idx < len(captures):
-                    captures[group_idx][1] = sp
-                pc += 1
-
-            elif opcode == Op.CHAR:
-                char_code = instr[1]
-                if sp >= len(string):
-                    if not stack:
-                        return None
-                    pc, sp, captures, registers = stack.pop()
-                    continue
-                ch = string[sp]
-                if self.ignorecase:
-                    match = ord(ch.lower()) == char_code or ord(ch.upper()) == char_code
-                else:
-                    match = ord(ch) == char_code
-                if match:
-                    sp += 1
-                    pc += 1
-                else:
-                    if not stack:
-                        return None
-                    pc, sp, captures, registers = stack.pop()
-
-            elif opcode == Op.DOT:
-                if sp >= len(string) or string[sp] == "\n":
-                    if not stack:
-                        return None
-                    pc, sp, captures, registers = stack.pop()
-                    continue
-                sp += 1
-                pc += 1
-
-            elif opcode == Op.SPLIT_FIRST:
-                alt_pc = instr[1]
-                stack.append(
-                    (alt_pc, sp, [c.copy() for c in captures], registers.copy())
-                )
-                pc += 1
-
-            elif opcode == Op.SPLIT_NEXT:
-                alt_pc = instr[1]
-                stack.append(
-                    (pc + 1, sp, [c.copy() for c in captures], registers.copy())
-                )
-                pc = alt_pc
-
-            elif opcode == Op.JUMP:
-                pc = instr[1]
-
-            elif opcode == Op.MATCH:
-                return captures
-
-            else:
-                # Handle other opcodes similarly to main loop
-                pc += 1
-
-    def _execute_lookbehind(
-        self, string: str, end_pos: int, start_pc: int, end_pc: int
-    ) -> bool:
-        """Execute bytecode for lookbehind assertion.
-
-        Lookbehind matches if the pattern matches text ending at end_pos.
-        We try all possible start positions backwards from end_pos.
-        """
-        # Try all possible starting positions from 0 to end_pos
-        # We want the pattern to match and end exactly at end_pos
-        for start_pos in range(end_pos, -1, -1):
-            result = self._try_lookbehind_at(
-                string, start_pos, end_pos, start_pc, end_pc
+        if not mirror:
+            return self._execute(
+                string, pos, True, body_pc, [c.copy() for c in captures]
             )
-            if result:
-                return True
-        return False
-
-    def _try_lookbehind_at(
-        self, string: str, start_pos: int, end_pos: int, start_pc: int, end_pc: int
-    ) -> bool:
-        """Try to match lookbehind pattern from start_pos, checking it ends at end_pos."""
-        pc = start_pc
-        sp = start_pos
-        captures = [[-1, -1] for _ in range(self.capture_count)]
-        registers: List[int] = []
-        stack: List[Tuple] = []
-        step_count = 0
-
-        while True:
-            step_count += 1
-            self._poll_steps += 1
-            if self._poll_steps % self.poll_interval == 0:
-                if self.poll_callback and self.poll_callback():
-                    raise RegexTimeoutError("Regex execution timed out")
-
-            if len(stack) > self.stack_limit:
-                raise RegexStackOverflow("Regex stack overflow")
-
-            if pc >= end_pc:
-                return False
-
-            instr = self.bytecode[pc]
-            opcode = instr[0]
-
-            if opcode == Op.LOOKBEHIND_END:
-                # Check if we ended exactly at the target position
-                return sp == end_pos
-
-            if opcode == Op.CHAR:
-                char_code = instr[1]
-                if sp >= len(string):
-                    if not stack:
-                        return False
-                    pc, sp, captures, registers = stack.pop()
-                    continue
-                ch = string[sp]
-                if self.ignorecase:
-                    match = ord(ch.lower()) == char_code or ord(ch.upper()) == char_code
-                else:
-                    match = ord(ch) == char_code
-                if match:
-                    sp += 1
-                    pc += 1
-                else:
-                    if not stack:
-                        return False
-                    pc, sp, captures, registers = stack.pop()
-
-            elif opcode == Op.DOT:
-                if sp >= len(string) or string[sp] == "\n":
-                    if not stack:
-                        return False
-                    pc, sp, captures, registers = stack.pop()
-                    continue
-                sp += 1
-                pc += 1
-
-            elif opcode == Op.DIGIT:
-                if sp >= len(string) or not string[sp].isdigit():
-                    if not stack:
-                        return False
-                    pc, sp, captures, registers = stack.pop()
-                    continue
-                sp += 1
-                pc += 1
-
-            elif opcode == Op.WORD:
-                if sp >= len(string):
-                    if not stack:
-                        return False
-                    pc, sp, captures, registers = stack.pop()
-                    continue
-                ch = string[sp]
-                if ch.isalnum() or ch == "_":
-                    sp += 1
-                    pc += 1
-                else:
-                    if not stack:
-                        return False
-                    pc, sp, captures, registers = stack.pop()
-
-            elif opcode == Op.SPLIT_FIRST:
-                alt_pc = instr[1]
-                stack.append(
-                    (alt_pc, sp, [c.copy() for c in captures], registers.copy())
-                )
-                pc += 1
-
-            elif opcode == Op.SPLIT_NEXT:
-                alt_pc = instr[1]
-                stack.append(
-                    (pc + 1, sp, [c.copy() for c in captures], registers.copy())
-                )
-                pc = alt_pc
-
-            elif opcode == Op.JUMP:
-                pc = instr[1]
-
-            elif opcode == Op.MATCH:
-                # Check if we ended exactly at the target position
-                return sp == end_pos
-
-            else:
-                # Handle other opcodes - advance pc
-                pc += 1
+        pair = getattr(self, "_mirror_pair", None)
+        if pair is None or (string is not pair[0] and string is not pair[1]):
+            pair = self._mirror_pair = (string, string[::-1])
+        other = pair[1] if string is pair[0] else pair[0]
+        sub = self._execute(other, n - pos, True, body_pc, mirrored(captures))
+        return None if sub is None else mirrored(sub)
